@@ -124,10 +124,12 @@ def numeric_literals(chk, tier, drv):
             gotq = Fraction(int(got.p), int(got.q)) if isinstance(got, sympy.Rational) else None
         except Exception as e:  # noqa: BLE001
             got, gotq = core.exc_name(e), None
-        if gotq != val:
+        # property level: the number read is the number spelled (to double precision; that it is EXACTLY the
+        # spelled rational is the model's claim, checked by the correspondence below)
+        if gotq is None or not math.isclose(float(gotq), float(val), rel_tol=1e-14):
             chk.fail("numlit-value|" + cls, f"the numeric literal {lit!r} of a unit string is read as {got!r}, it spells {val}",
                      {"python": snippet(f"from unyt._parsing import parse_unyt_expr\ngot = parse_unyt_expr({lit!r})\n"
-                                         f"assert got == sympy.Rational({val.numerator}, {val.denominator}), got\n")})
+                                         f"assert math.isclose(float(got), float(Fraction({val.numerator}, {val.denominator})), rel_tol=1e-14), got\n")})
         lit_lines.append(f"c02.numlit\t{lit}")
         lit_expect.append((lit, val, gotq, "." in lit or (("e" in lit or "E" in lit) and not lit.startswith(("0x", "0X")))))
         # (b) as a coefficient: scale(c*u) = c*scale(u), dim(c*u) = dim(u)
@@ -200,10 +202,14 @@ def numeric_literals(chk, tier, drv):
     for r, (lit, val, gotq, is_float) in zip(rep, lit_expect):
         chk.count("model:numlit")
         mv = Fraction(r[2]) if r[0] == "ok" and r[2] != "none" else None
+        if mv != val:
+            chk.disagree("c02.numlit", f"{lit}: model value {r[2] if len(r) > 2 else r}, the generator spelled {val}")
         if mv != gotq:
             chk.disagree("c02.numlit", f"{lit}: model value {r[2] if len(r) > 2 else r} implementation {gotq}")
         if r[0] == "ok" and (r[1] == "float") != is_float:
             chk.disagree("c02.numlit", f"{lit}: model class {r[1]}, sympy's auto_number test says float={is_float}")
+        if r[0] == "ok" and len(r) > 4 and (r[4] == "float") != is_float:
+            chk.disagree("c02.numlit", f"{lit}: the class test regenerated from the live source says {r[4]}, sympy's auto_number test says float={is_float}")
         if r[0] == "ok" and r[3] != r[2]:
             chk.disagree("c02.numlit", f"{lit}: value model {r[2]} and tokenizer model (Parse.lexNumber) {r[3]} differ")
     try:
